@@ -309,7 +309,8 @@ func meet(a, b *State) *State {
 				continue
 			}
 			cnt := 0
-			for k, t := range x.m {
+			for _, k := range sortedKeys(x.m) {
+				t := x.m[k]
 				if t.Op == "imp" || t == c {
 					continue
 				}
@@ -327,6 +328,48 @@ func meet(a, b *State) *State {
 	}
 	addImps(a, b)
 	addImps(b, a)
+	// a boolean variable whose value is known on one side only (`flag = true`
+	// in one branch, `flag = <expr>` or nothing in the other): where the flag
+	// does not have that value at the join, control came from the other side,
+	// so what the other side knows holds
+	flagImps := func(x, y *State) {
+		for _, c := range x.m {
+			if c.Op != "true" || c.A == nil || c.A.K != 'v' {
+				continue
+			}
+			if _, same := y.m[c.key]; same {
+				continue
+			}
+			nc := complement(c)
+			cnt := 0
+			for _, k := range sortedKeys(y.m) {
+				t := y.m[k]
+				if t.Op == "imp" || k == nc.key {
+					continue
+				}
+				if _, both := x.m[k]; both {
+					continue
+				}
+				mentions := false
+				for _, tt := range t.terms() {
+					if tt.mentions(c.A.String()) {
+						mentions = true
+					}
+				}
+				if mentions {
+					continue
+				}
+				if cnt > 24 {
+					break
+				}
+				cnt++
+				imp := mkImp(nc, t)
+				n.m[imp.key] = imp
+			}
+		}
+	}
+	flagImps(a, b)
+	flagImps(b, a)
 	return n
 }
 
@@ -3072,6 +3115,46 @@ func (ff *FuncFacts) refutes(b *cfg.Block, succ int, inP func(*Fact) bool) bool 
 		}
 		return out, true
 	}
+	// a boolean local defined by a condition (`restricted := !slices.Contains(perms, "op")`)
+	// is that condition while both implications recorded at its definition stand
+	pre := ff.blockIn[b] // what holds when the condition is evaluated
+	if st, ok := ff.at[cond]; ok && st != nil {
+		pre = st
+	}
+	equivalents := func(alts []*Fact) []*Fact {
+		in := pre
+		if in == nil {
+			return alts
+		}
+		out := alts
+		for _, a := range alts {
+			if a.Op != "true" || a.A == nil || a.A.K != 'v' {
+				continue
+			}
+			na := complement(a)
+			for _, f := range in.m {
+				if f.Op != "imp" || f.Cond == nil || f.Then == nil || f.Cond.key != a.key {
+					continue
+				}
+				back := mkImp(na, complement(f.Then))
+				if in.Has(back.key) {
+					out = append(out, f.Then)
+				}
+			}
+		}
+		return out
+	}
+	atomsOf0 := atomsOf
+	atomsOf = func(es []ast.Expr, pol bool) ([][]*Fact, bool) {
+		as, ok := atomsOf0(es, pol)
+		if !ok {
+			return nil, false
+		}
+		for i := range as {
+			as[i] = equivalents(as[i])
+		}
+		return as, true
+	}
 	anyIn := func(alts []*Fact, pred func(*Fact) bool) bool {
 		for _, a := range alts {
 			if pred(a) {
@@ -3116,7 +3199,7 @@ func (ff *FuncFacts) refutes(b *cfg.Block, succ int, inP func(*Fact) bool) bool 
 				for _, alts := range as {
 					if anyIn(alts, inP) {
 						some = true
-					} else if !anyIn(alts, func(a *Fact) bool { return ff.blockIn[b].Has(a.key) }) {
+					} else if !anyIn(alts, func(a *Fact) bool { return pre.Has(a.key) }) {
 						all = false
 					}
 				}
@@ -3142,7 +3225,36 @@ func (ff *FuncFacts) refutes(b *cfg.Block, succ int, inP func(*Fact) bool) bool 
 		}
 		return false
 	}
-	return refutesExpr(cond, succ == 0, 0)
+	if refutesExpr(cond, succ == 0, 0) {
+		return true
+	}
+	// in general: taking the edge means cond has the value v; it refutes P
+	// when P (with what holds anyway when cond is evaluated) implies that
+	// cond has the other value
+	var implied func(e ast.Expr, pol bool, depth int) bool
+	implied = func(e ast.Expr, pol bool, depth int) bool {
+		e = unparen(e)
+		if depth > 8 {
+			return false
+		}
+		if ue, ok := e.(*ast.UnaryExpr); ok && ue.Op == token.NOT {
+			return implied(ue.X, !pol, depth+1)
+		}
+		if be, ok := e.(*ast.BinaryExpr); ok && (be.Op == token.LAND || be.Op == token.LOR) {
+			all := (be.Op == token.LAND) == pol // a && b true / a || b false: both operands decided
+			l, r := implied(be.X, pol, depth+1), implied(be.Y, pol, depth+1)
+			if all {
+				return l && r
+			}
+			return l || r
+		}
+		as, ok := atomsOf([]ast.Expr{e}, pol)
+		if !ok || len(as) != 1 {
+			return false
+		}
+		return anyIn(as[0], inP) || anyIn(as[0], func(a *Fact) bool { return pre.Has(a.key) })
+	}
+	return implied(cond, succ != 0, 0)
 }
 
 func complement(f *Fact) *Fact {
@@ -3844,8 +3956,8 @@ func (ff *FuncFacts) containsFuncFalse(st *State, call *ast.CallExpr) *State {
 		return st
 	}
 	fn, ok := typeutil.Callee(ff.info(), call).(*types.Func)
-	if !ok || fn.Pkg() == nil || fn.Pkg().Path() != "slices" || fn.Name() != "ContainsFunc" {
-		return st
+	if !ok || fn.Pkg() == nil || fn.Pkg().Path() != "slices" || (fn.Name() != "ContainsFunc" && fn.Name() != "IndexFunc") {
+		return st // (for IndexFunc the caller has established that the result is negative)
 	}
 	info := ff.info()
 	var lit *ast.FuncLit
@@ -3993,4 +4105,13 @@ func (s *State) PointeeOf(t *Term) *Term {
 		}
 	}
 	return nil
+}
+
+func sortedKeys(m map[string]*Fact) []string {
+	ks := make([]string, 0, len(m))
+	for k := range m {
+		ks = append(ks, k)
+	}
+	sort.Strings(ks)
+	return ks
 }
